@@ -221,15 +221,25 @@ def orient_history(ctx, rng):
         sr = pg.make_srecord(rec)
         steps = []
         ok = True
+        exp_deg = float(dep - 360.0 * np.floor(dep / 360.0))       # the orientation is tracked HERE, independently of what the object reports
+        exp_deg = 0.0 if exp_deg >= 360.0 else exp_deg
         for _step in range(int(rng.integers(2, 5))):
             tgt = pick_angle(rng)
-            cur = float(sr.degrees_from_north)
+            if abs(float(sr.degrees_from_north) - exp_deg) > 1e-9:
+                ctx.violation("orientation-recorded", dict(case=dict(record=rec, history=steps), why="after this history the recording (or the window cut from it) does not "
+                                                           "report the orientation its samples are in", reported=float(sr.degrees_from_north), expected=exp_deg),
+                              seam="SeismicRecording3C.degrees_from_north after edits / split / copy")
+                ok = False
+                break
+            cur = exp_deg
             ns0, ew0, vt0 = sr.ns.amplitude.copy(), sr.ew.amplitude.copy(), sr.vt.amplitude.copy()
             sr.orient_sensor_to(tgt)
             ang = np.radians(tgt - cur)
             c, s_ = np.cos(ang), np.sin(ang)
             want_ns, want_ew = ew0 * s_ + ns0 * c, ew0 * c - ns0 * s_
             steps.append(("orient", tgt))
+            exp_deg = float(tgt - 360.0 * np.floor(tgt / 360.0))
+            exp_deg = 0.0 if exp_deg >= 360.0 else exp_deg
             sc = float(max(np.max(np.abs(ns0)), np.max(np.abs(ew0)), 1e-300))
             if not (len(sr.ns.amplitude) == len(want_ns) and np.allclose(sr.ns.amplitude, want_ns, rtol=0, atol=1e-9 * sc)
                     and np.allclose(sr.ew.amplitude, want_ew, rtol=0, atol=1e-9 * sc) and np.array_equal(sr.vt.amplitude, vt0)):
@@ -240,17 +250,24 @@ def orient_history(ctx, rng):
                               seam="SeismicRecording3C.orient_sensor_to after edits")
                 ok = False
                 break
-            op = str(rng.choice(["detrend", "window", "filter", "assign", "trim", "none"]))
+            op = str(rng.choice(["detrend", "window", "filter", "assign", "trim", "none", "split", "copy"]))
+            if op == "split" and len(sr.ns.amplitude) >= 12:
+                # go on with a window cut from the recording: it holds the parent's samples in the parent's orientation
+                wins = sr.split(float((len(sr.ns.amplitude) // 2 - 1) * rec["dt"]))
+                sr = wins[int(rng.integers(0, len(wins)))]
+            elif op == "copy":
+                import hvsrpy
+                sr = hvsrpy.SeismicRecording3C.from_seismic_recording_3c(sr)
             if op == "detrend":
                 sr.detrend(type=str(rng.choice(["linear", "constant"])))
             elif op == "window":
                 sr.window(type="tukey", width=0.3)
-            elif op == "filter":
+            elif op == "filter" and len(sr.ns.amplitude) > 40:       # scipy's zero-phase filter needs more samples than its padding
                 sr.butterworth_filter((None, 0.3 / (2 * rec["dt"])))
             elif op == "assign":
                 for ts in (sr.ns, sr.ew):
                     ts.amplitude = ts.amplitude * float(rng.uniform(0.5, 2.0)) + float(rng.normal())
-            elif op == "trim":
+            elif op == "trim" and len(sr.ns.amplitude) > 8:
                 sr.trim(2 * rec["dt"], (len(sr.ns.amplitude) - 3) * rec["dt"])
             steps.append((op,))
         ctx.case(("orient-history", rec["deg"], rec["ns"], [str(x) for x in steps]), nontrivial=True)
